@@ -475,12 +475,21 @@ class DataConnection(Connection, abc.ABC):
                 await self._writer.drain()
 
         except asyncio.TimeoutError as exc:
-            await self.disconnect(CloseReason.TIMEOUT)
+            await self._disconnect_detached(CloseReason.TIMEOUT)
             raise ConnectionWriteError(f"{self.hostname}:{self.port} : write timeout") from exc
 
         except Exception as exc:
-            await self.disconnect(CloseReason.WRITE_ERROR)
+            await self._disconnect_detached(CloseReason.WRITE_ERROR)
             raise ConnectionWriteError(f"{self.hostname}:{self.port} : exception during writing") from exc
+
+    async def _disconnect_detached(self, reason: CloseReason):
+        """Disconnects from a task of its own and waits for it. The listeners
+        of the state changes are allowed to cancel the task that noticed the
+        write failure (example: the user tracking tasks get cancelled when the
+        server connection closes), this may not cut the notifications short
+        """
+        await asyncio.shield(
+            asyncio.ensure_future(self.disconnect(reason)))
 
     async def send_message(self, message: Union[bytes, MessageDataclass]):
         """Sends a message or a set of bytes over the connection. In case an
